@@ -911,6 +911,7 @@ bucket_keys(Bucket *self, PyObject *args, PyObject *kw)
         goto err;
 
     r = PyList_New(high-low+1);
+    VERIF_OBJ_FAULT(r);
     if (r == NULL)
         goto err;
 
@@ -953,6 +954,7 @@ bucket_values(Bucket *self, PyObject *args, PyObject *kw)
 
     UNLESS (r=PyList_New(high-low+1))
         goto err;
+    VERIF_OBJ_FAULT_GOTO(r, err);
 
     for (i=low; i <= high; i++)
     {
@@ -995,11 +997,13 @@ bucket_items(Bucket *self, PyObject *args, PyObject *kw)
 
     UNLESS (r=PyList_New(high-low+1))
         goto err;
+    VERIF_OBJ_FAULT_GOTO(r, err);
 
     for (i=low; i <= high; i++)
     {
         UNLESS (item = PyTuple_New(2))
             goto err;
+        VERIF_OBJ_FAULT_GOTO(item, err);
 
         COPY_KEY_TO_OBJECT(o, self->keys[i]);
         UNLESS (o)
@@ -1247,6 +1251,7 @@ bucket_getstate(Bucket *self)
     if (self->values) /* Bucket */
     {
         items = PyTuple_New(len * 2);
+        VERIF_OBJ_FAULT(items);
         if (items == NULL)
             goto err;
         for (i = 0, l = 0; i < len; i++) {
@@ -1266,6 +1271,7 @@ bucket_getstate(Bucket *self)
     else /* Set */
     {
         items = PyTuple_New(len);
+        VERIF_OBJ_FAULT(items);
         if (items == NULL)
             goto err;
         for (i = 0; i < len; i++) {
@@ -1684,6 +1690,7 @@ _bucket__p_resolveConflict(PyObject *ob_type, PyObject *s[3])
         PyObject *r;
 
         b[i] = (Bucket*)PyObject_CallObject((PyObject *)ob_type, NULL);
+        VERIF_OBJ_FAULT(b[i]);
         if (b[i] == NULL)
             goto Done;
         if (s[i] == Py_None) /* None is equivalent to empty, for BTrees */
@@ -1692,6 +1699,7 @@ _bucket__p_resolveConflict(PyObject *ob_type, PyObject *s[3])
         if (meth == NULL)
             goto Done;
         a = PyTuple_New(1);
+        VERIF_OBJ_FAULT(a);
         if (a == NULL)
             goto Done;
         PyTuple_SET_ITEM(a, 0, s[i]);
